@@ -77,6 +77,14 @@ Example C35_strict_witness :
   work s = 2%nat /\ work (do_step fixed_flags true s (SSend [] [(1, (2147483646, TBlock))] [])) = 1%nat.
 Proof. vm_compute. split; reflexivity. Qed.
 
+(** Progress under the TIGHTEST size limit (one entry per message; [send_one] sends the
+    first queued cancel, else the first pending peer entry, else the first pending broadcast
+    entry): from ANY state, [work s] such sends reach idle, in either model.  Larger limits
+    send supersets of this cut and are covered by [C35_send_strict_progress]. *)
+Theorem C35_progress_one_entry_limit : forall fl sh s, idle (sends_one fl sh (work s) s).
+Proof. exact send_one_reaches_idle. Qed.
+Print Assumptions C35_progress_one_entry_limit.
+
 (** ---------- the current code ---------- *)
 (** finding C35-1: want c; send; cancel c; want c; cancel c; send (the last send may well
     carry the cancel that was snapshotted before "want c; cancel c" ran inside the
